@@ -67,6 +67,18 @@ func (sc *subscriptionCancellations) CancelAll() {
 	}
 }
 
+// CancelAfter runs beforeRemoval and then cancels and forgets id, all while holding the lock, so
+// that nobody can observe the id as still taken after beforeRemoval has finished.
+func (sc *subscriptionCancellations) CancelAfter(id string, beforeRemoval func()) {
+	sc.mu.Lock()
+	defer sc.mu.Unlock()
+	beforeRemoval()
+	if cancelFunc, ok := sc.cancellations[id]; ok {
+		cancelFunc()
+		delete(sc.cancellations, id)
+	}
+}
+
 // CancelAndRemoveAll cancels every subscription and forgets all of them.
 func (sc *subscriptionCancellations) CancelAndRemoveAll() {
 	sc.mu.Lock()
